@@ -103,3 +103,10 @@ Proof.
   - intros [H | []]. discriminate.
 Qed.
 Print Assumptions C13_dropped_rows_replayed_from_wal_current_refuted.
+
+(* ---- finding C13-purge-forgets-ids-of-skipped-parts: today the purge pass discards the flushed part of the deleted-series table
+   also when it left a part alone because it was being merged; the dropped id 2 of that part is visible again (after the restart) *)
+Theorem C13_purge_pass_current_refuted :
+  exists (t : ptable) (id : N), In id (pt_deleted t) /\ In id (visible_ids (purge_pass false t)).
+Proof. exists (mkPT [(true, [1; 2; 3]); (false, [2; 4])] [2]), 2. vm_compute. split; [left | right; left]; reflexivity. Qed.
+Print Assumptions C13_purge_pass_current_refuted.
